@@ -1174,3 +1174,65 @@ def reset_after_swap_findings(seed, n=4, max_findings=2):
     finally:
         Chain.reset_proposals = orig
     return out, stats
+
+
+# --------------------------------------------------------------------------
+# C10 with options the transdimensional work package's generator does not vary:
+# reset_after_swap, rolling the SAME sampler back to an earlier state, explicit reset_proposals
+# --------------------------------------------------------------------------
+
+def td_options_findings(seed, n=6, max_findings=3):
+    import transdim
+    from epsie.samplers import ParallelTemperedSampler, MetropolisHastingsSampler
+    rng = random.Random(seed)
+    out = []
+    nchecks = 0
+
+    def bad(key, text, cfg):
+        if len(out) < max_findings and not any(k == key for k, _, _ in out):
+            out.append((key, text, {'td': cfg.describe()}))
+
+    def check(smp, cfg, tag, key):
+        nonlocal nchecks
+        for ci, ch in enumerate(smp.chains):
+            for t, l in enumerate(I.levels_of(ch)):
+                nchecks += 1
+                probs = transdim.wf_chain(cfg, l, '%s chain %d level %d' % (tag, ci, t))
+                if probs:
+                    bad(key, probs[0], cfg)
+                    return False
+        return True
+    for i in range(n):
+        pt = i % 3 != 2
+        cfg = transdim.gen_run_cfg(rng, pt)
+        c = plumbing.TDCase('tdopt%d' % i, cfg, 'pt' if pt else 'mh', rng.choice([1, 2]), rng.randrange(1 << 30), [])
+        model = plumbing.make_model(c)
+        try:
+            if pt:
+                smp = ParallelTemperedSampler(cfg.params, model, c.nchains, numpy.array(c.betas), swap_interval=c.swap_interval,
+                                              proposals=cfg.build(), reset_after_swap=True, seed=c.seed)
+            else:
+                smp = MetropolisHastingsSampler(cfg.params, model, c.nchains, proposals=cfg.build(), seed=c.seed)
+            smp.start_position = plumbing.start_positions(c)
+            kept = None
+            for it in range(1, 25):
+                smp.run(1)
+                if not check(smp, cfg, 'iteration %d%s' % (it, ' (reset_after_swap)' if pt else ''),
+                             'td-wf-reset-after-swap' if pt else 'td-wf'):
+                    break
+                if it == 4:
+                    kept = pickle.dumps(smp.state)
+                if it == 9:
+                    for ch in smp.chains:
+                        for l in I.levels_of(ch):
+                            l.reset_proposals()
+                    if not check(smp, cfg, 'after reset_proposals at iteration %d' % it, 'td-wf-after-reset-proposals'):
+                        break
+                if it == 15 and kept is not None:
+                    smp.set_state(pickle.loads(kept))       # rewind the SAME sampler
+                    if not check(smp, cfg, 'after rewinding the sampler to iteration 4', 'td-wf-after-rewind'):
+                        break
+        except Exception as e:
+            bad('td-options-raise:' + type(e).__name__, 'a nested transdimensional run with %s raised %r' % (
+                'reset_after_swap' if pt else 'reset/rewind', e), cfg)
+    return out, nchecks
